@@ -12,6 +12,16 @@ from .explorer import explore, prove, satisfiable, Unsupported, EX
 from .proxies import SymInt, SymBytes, truth, ev
 
 PID = "C03"
+
+
+def segment(M, enc, pgn, prio, src, dst, payload):
+    """the frames the encoder produces for a fast-packet message with this payload: through the encoder's own `_encode`
+    (which decides whether and how a message is segmented), with the per-PGN codec replaced by the given payload"""
+    msg = M.message.NMEA2000Message(PGN=pgn, id="x", description="x")
+    msg.priority, msg.source, msg.destination = prio, src, dst
+    enc._call_encode_function = lambda m: payload
+    return enc._encode(msg)
+
 _G = {}
 TS = datetime(2020, 1, 1)
 
@@ -47,7 +57,7 @@ def _len_worker(ns):
         def h():
             enc = R.encoder.NMEA2000Encoder()
             enc.sequence_counter = SymInt(z3.ZeroExt(1, sv), 3)
-            frames = enc._encode_fast_message(pgn, prio, src, dst, pay)
+            frames = segment(R, enc, pgn, prio, src, dst, pay)
             dec = R.decoder.NMEA2000Decoder()
             calls = []
             dec._call_decode_function = lambda pgn_, pr_, s_, d_, ts_, data, iso, raw: calls.append((pgn_, pr_, s_, d_, data)) or "MSG"
@@ -148,7 +158,7 @@ def _history_worker(spec):
         log = []
         for k, which in enumerate(order):
             pgn = pgns[which]
-            frames = enc._encode_fast_message(pgn, 3, 7, 255, pays[k])
+            frames = segment(R, enc, pgn, 3, 7, 255, pays[k])
             rets = []
             for fr in frames:
                 rets.append(dec._decode(pgn, 3, 7, 255, TS, fr[::-1], b""))
@@ -203,7 +213,7 @@ def run(tier, seed):
     R = loader.load()
     pg = pick_fast_pgns(D)
     _G.update(R=R, D=D, tier=tier, pgns=pg)
-    rep.functions = ["encoder.NMEA2000Encoder._encode_fast_message", "decoder.NMEA2000Decoder._decode", "decoder._decode_fast_message",
+    rep.functions = ["encoder.NMEA2000Encoder._encode (per-PGN codec replaced by the payload) / _encode_fast_message", "decoder.NMEA2000Decoder._decode", "decoder._decode_fast_message",
                      "decoder._isFastPGN", "decoder.fast_pgn_metadata"]
     rep.bounds = {"payload_length": "every length 0..223 (pinned per run: enumerated, the loop trip count must be concrete)",
                   "payload_bytes": "symbolic", "sequence_counter": "symbolic 3-bit state of the encoder",
@@ -244,7 +254,7 @@ def replay(r):
         enc = N.encoder.NMEA2000Encoder()
         enc.sequence_counter = seq
         try:
-            frames = enc._encode_fast_message(pgn, 3, 7, 255, payload)
+            frames = segment(N, enc, pgn, 3, 7, 255, payload)
         except Exception as e:
             return True, "encoder raised %r" % (e,)
         problems = []
@@ -289,7 +299,7 @@ def replay(r):
             for k, which in enumerate(r["order"]):
                 pgn = r["pgns"][which]
                 pl = bytes.fromhex(r["payloads"][k])
-                rets = [dec._decode(pgn, 3, 7, 255, TS, bytes(fr[::-1]), b"") for fr in enc._encode_fast_message(pgn, 3, 7, 255, pl)]
+                rets = [dec._decode(pgn, 3, 7, 255, TS, bytes(fr[::-1]), b"") for fr in segment(N, enc, pgn, 3, 7, 255, pl)]
                 if any(x is not None for x in rets[:-1]) or rets[-1] != "MSG" or len(calls) != k + 1 or calls[-1] != (pgn, pl[::-1]):
                     problems.append("message %d: returns %r" % (k, rets))
                     break
